@@ -160,6 +160,23 @@ Theorem C11_dispatch :
 Proof. exact (fun K N ops au => @dispatch K N ops au). Qed.
 Print Assumptions C11_dispatch.
 
+(* nmodes, sigma and mode are documented as sparse-only.  For dense input (A or B not sparse) the library call and hence
+   -- `postprocess` takes no state -- the whole response is the same for any two module states with the same Hermitian
+   flag, whatever nmodes / sigma / mode / cached solver they hold (constructor keywords, or values a previous SPARSE call
+   of the same module stored); the call is eigh / eig on (A, B) without k, sigma, mode or OPinv.  Together with
+   C11_dense_complete / C11_normalised (which range over ALL length W columns) every column of the complete spectrum is
+   normalised, sign-fixed and ordered, also when nmodes < n is given. *)
+Theorem C11_dense_ignores_sparse_options :
+  forall (K : Type) (N : Num K) (ops : EigOps K) (auto_solver : mat -> bool -> nat)
+         (st st2 : estate) (p : pencil),
+    pencil_sparse p = false -> sHerm st = sHerm st2 ->
+    snd (response ops auto_solver st p) = snd (response ops auto_solver st2 p) /\
+    exists c, snd (response ops auto_solver st p) = Ok c /\
+              cFun c = (if herm_flag ops st p then EIGH else EIG) /\ cA c = pA p /\ cM c = pB p /\
+              cK c = None /\ cSigma c = None /\ cMode c = None /\ cOPinv c = None.
+Proof. exact (fun K N ops au => @dense_ignores_options K N ops au). Qed.
+Print Assumptions C11_dense_ignores_sparse_options.
+
 (* the automatic detection (np.allclose based) accepts every exactly symmetric real matrix, dense or sparse: with the
    default hermitian=None a real symmetric pencil is sent to the Hermitian routine (eigh / eigsh) *)
 Theorem C11_detects_real_symmetric :
